@@ -51,6 +51,55 @@ func init() {
 // features collects the behaviour-relevant vocabulary of a function (and its closures): error variables, frame / opcode
 // accessors, compared constants, fields read, and in-package callees, after the sync<->async renaming.
 func features(p *Prog, fns []*ssa.Function, rename map[string]string) map[string]bool {
+	return featuresInl(p, fns, rename, nil)
+}
+
+// localHelpers: the unexported, non-renamed functions of the module that fns call directly.
+func localHelpers(fns []*ssa.Function, rename map[string]string) map[*ssa.Function]bool {
+	named := map[string]bool{}
+	for k, v := range rename {
+		named[k], named[v] = true, true
+	}
+	out := map[*ssa.Function]bool{}
+	for _, fn := range fns {
+		eachInstr(fn, func(in ssa.Instruction) {
+			call, ok := in.(*ssa.Call)
+			if !ok {
+				return
+			}
+			callee := call.Call.StaticCallee()
+			if callee == nil || !isHelperOf(fns[0], callee) {
+				return
+			}
+			_, tn := recvTypeName(callee)
+			if !named["call "+tn+"."+callee.Name()] {
+				out[callee] = true
+			}
+		})
+	}
+	return out
+}
+
+// featuresInl: as features, with the bodies of the functions in inline folded into the caller (a helper that only one
+// of two siblings uses is compared by what it does, not by its name).
+func featuresInl(p *Prog, fns []*ssa.Function, rename map[string]string, inline map[*ssa.Function]bool) map[string]bool {
+	for i := 0; i < len(fns); i++ {
+		eachInstr(fns[i], func(in ssa.Instruction) {
+			if call, ok := in.(*ssa.Call); ok {
+				if callee := call.Call.StaticCallee(); callee != nil && inline[callee] {
+					dup := false
+					for _, f := range fns {
+						if f == callee {
+							dup = true
+						}
+					}
+					if !dup {
+						fns = append(fns, withClosures(callee)...)
+					}
+				}
+			}
+		})
+	}
 	out := map[string]bool{}
 	add := func(s string) {
 		if r, ok := rename[s]; ok {
@@ -72,7 +121,7 @@ func features(p *Prog, fns []*ssa.Function, rename map[string]string) map[string
 			case *ssa.Call:
 				if callee := x.Call.StaticCallee(); callee != nil {
 					pk := fnTypesPkg(callee)
-					if pk != nil && strings.HasPrefix(pk.Path(), modPath) {
+					if pk != nil && strings.HasPrefix(pk.Path(), modPath) && !inline[callee] {
 						_, tn := recvTypeName(callee)
 						add("call " + tn + "." + callee.Name())
 					}
@@ -323,8 +372,21 @@ func runC06(c *Ctx) {
 		{w.nextFrame, w.asyncNextFrame, map[string]string{}},
 	}
 	for _, t := range twins {
-		fa := features(p, withClosures(t.a), rename)
-		fb := features(p, withClosures(t.b), rename)
+		// a helper only one side uses is compared by its body
+		ha, hb := localHelpers(withClosures(t.a), rename), localHelpers(withClosures(t.b), rename)
+		inline := map[*ssa.Function]bool{}
+		for h := range ha {
+			if !hb[h] {
+				inline[h] = true
+			}
+		}
+		for h := range hb {
+			if !ha[h] {
+				inline[h] = true
+			}
+		}
+		fa := featuresInl(p, withClosures(t.a), rename, inline)
+		fb := featuresInl(p, withClosures(t.b), rename, inline)
 		delete(fa, "(loop)")
 		delete(fb, "(loop)")
 		var diffs []string
